@@ -155,6 +155,10 @@ func emit(o *util.Out, c Case, r Result, kind string) {
 	if r.MaxOpen > 1 {
 		o.Stats["overlap-observed"]++
 	}
+	if r.DoubleRelease > 0 {
+		o.Stats["double-release"]++
+		o.Monitor = append(o.Monitor, util.MonitorFail{Case: idx, What: fmt.Sprintf("a mailbox message was released to the pool %d time(s) without having been taken in between (two later senders would share it: accepted messages overwritten or lost). First at: %s", r.DoubleRelease, r.DoubleAt)})
+	}
 }
 
 func main() {
@@ -169,6 +173,7 @@ func main() {
 	corpus := fs.String("corpus", "", "corpus directory")
 	bound := fs.Int("preempt", 2, "preemption bound for dfs")
 	fs.Parse(os.Args[2:])
+	installBaseHook() // before the node starts: no take / release of a mailbox message is missed
 	node, hp := startNode()
 	o := util.NewOut("sched." + os.Args[1])
 	switch os.Args[1] {
@@ -269,8 +274,7 @@ func main() {
 				cases = append(cases, genMetaCase(r))
 			}
 		}
-		for _, c := range cases {
-			res, _ := runMetaCase(node, c)
+		emitMeta := func(c MCase, res MResult) {
 			idx := o.Add(coqMetaCase(c, res), c)
 			o.Stats["steps"] += len(res.Full)
 			o.Stats[fmt.Sprintf("reason:%d", res.Reason)]++
@@ -280,8 +284,30 @@ func main() {
 			if res.MaxOpen > 1 {
 				o.Stats["overlap-observed"]++
 			}
+			for _, ob := range res.Obs {
+				if ob.Label == 21 {
+					o.Stats["handler-woken-by-recheck"]++
+					break
+				}
+			}
+			if res.DoubleRelease > 0 {
+				o.Stats["double-release"]++
+				o.Monitor = append(o.Monitor, util.MonitorFail{Case: idx, What: fmt.Sprintf("a mailbox message was released to the pool %d time(s) without having been taken in between (two later senders would share it: accepted messages overwritten or lost). First at: %s", res.DoubleRelease, res.DoubleAt)})
+			}
 			if res.Stalled != "" {
 				o.Notes = append(o.Notes, fmt.Sprintf("case %d stalled: %s", idx, res.Stalled))
+			}
+		}
+		for _, c := range cases {
+			res, _ := runMetaCase(node, c)
+			emitMeta(c, res)
+		}
+		if *replay == "" {
+			// deviation enumeration around non-preemptive base schedules (budget: 4x the random cases)
+			runs, complete := metaDeviations(node, 4**n, emitMeta)
+			o.Stats["deviation-runs"] = runs
+			if complete {
+				o.Stats["deviation-depth1-complete"] = 1
 			}
 		}
 	case "dfs":
